@@ -35,10 +35,10 @@ def build_history(rng, tier):
                 sts.append(g.insert(name, nrows=rng.choice([1, 3, 6, 12])))   # crosses leaf splits: root-move records
             elif r < 0.8:
                 sts.append({"k": "update", "table": name, "sets": [("b", g.value("varchar"))],
-                            "where": [[(("col", "", "a"), rng.choice([">=", "<", "!="]), g.counter - rng.randint(0, 9))]]})
+                            "where": [[(("col", "", "a"), rng.choice([">=", "<", "!="]), max(0, g.counter - rng.randint(0, 9)))]]})
             else:
                 sts.append({"k": "delete", "table": name,
-                            "where": [[(("col", "", "a"), rng.choice([">=", "<", "="]), g.counter - rng.randint(0, 9))]]})
+                            "where": [[(("col", "", "a"), rng.choice([">=", "<", "="]), max(0, g.counter - rng.randint(0, 9)))]]})
     flushes = {i for i in range(len(sts)) if rng.random() < 0.25}
     return sts, flushes
 
